@@ -232,9 +232,61 @@ def not_open_cases(chk):
     return n
 
 
+def stalled_fault_cases(chk):
+    """k messages held, the link comes up stalled (the first write parks in drain()), m more sends arrive during the
+    stall (each accepted one pops and writes the next held message and parks too), then the stalled link dies.  Every
+    message whose send() returned normally is still owed: on a network that behaves from then on all of them arrive,
+    each once - a retry put back at the head must not push a held message out."""
+    n = 0
+    for gen in (4, 5):
+        for k in (8, 9, 10):
+            for m in (0, 1, 2, 3):
+                for fault in ("reset", "eof"):
+                    w = Scenario({"gen": gen, "open": True})
+                    w.loop.settle()
+                    for i in range(k):
+                        w.submit(w.fam(i), "I")
+                    w.loop.settle()
+                    w.net.pause_next = True
+                    w.net.resolve(True)
+                    w.loop.settle()
+                    for i in range(m):
+                        w.submit(w.fam(k + i), "I")
+                        w.loop.settle()
+                    t = w.net.live()[-1]
+                    if fault == "reset":
+                        t.peer_reset()
+                    else:
+                        t.peer_eof()           # the peer has closed its side; the stall ends (its window reopens) afterwards
+                        w.loop.settle()
+                        t.resume()
+                    w.net.auto = "accept"
+                    w.loop.run_until(w.loop.time() + 10.0)
+                    n += 1
+                    chk.counters["executions"] += 1
+                    statuses = [c["status"] for c in w.calls]
+                    owed = [c["idx"] for c in w.calls if c["status"] == "returned"]
+                    frames, _p = w.wire()
+                    pairs, _u = sc.match_frames(w, frames)
+                    last = max((f["cid"] for f, c in pairs), default=-1)
+                    got = [c["idx"] for f, c in pairs if f["cid"] == last]
+                    msg = None
+                    if any(s not in ("returned", "overflow") for s in statuses):
+                        msg = f"call statuses {statuses}"
+                    elif fault == "reset" and sorted(got) != owed:      # (their order after two parked writers failed is not C16's business)
+                        msg = (f"accepted calls {owed}; after the stalled link was reset the next connection carried {got}")
+                    elif fault == "eof" and [i for i in owed if i not in {c['idx'] for f, c in pairs}]:
+                        msg = f"accepted calls {owed}; never transmitted: {[i for i in owed if i not in {c['idx'] for f, c in pairs}]}"
+                    if msg:
+                        chk.violation(f"at{gen}:stalled-link-fault", f"at{gen}: {k} held, link up but stalled, {m} more sends, then {fault}: {msg}",
+                                      {"kind": "input", "module": "pvmc.props.c16", "gen": gen, "when": f"stalled-{k}-{m}-{fault}"})
+    return n
+
+
 def replay_input(rp):
     c = runner.Check("C16", "quick", 0, "model_checking")
     not_open_cases(c)
+    stalled_fault_cases(c)
     for s, r in c.violations.items():
         return r["message"]
     return None
@@ -266,4 +318,5 @@ def run(tier, seed, part=None):
             chk.add_explorer(f"at{gen}/{extra['max_send']}sends/{extra['max_adv']}adv" + ("/stall" if extra.get("stall") else ""), SPEC, params, res, {"depth": depth, "deviations": dev, **extra})
     chk.add_audit(SPEC, {"gen": 4, "max_send": 5, "max_adv": 2, "pattern": "BBBBB"}, 6, 0, limit=4000 if tier == "thorough" else 600)
     chk.cov["not_open_cases"] = not_open_cases(chk)
+    chk.cov["stalled_fault_cases"] = stalled_fault_cases(chk)
     return chk.finish()
